@@ -12,14 +12,14 @@ import (
 )
 
 // C19 facts:
-//   * transport.SetConfig: what its single assignment stores where. The left-hand side is resolved with the
+//   - transport.SetConfig: what its single assignment stores where. The left-hand side is resolved with the
 //     scope information go/parser records (ident.Obj): a parameter with the same name as the package-level
 //     variable shadows it, and then `cfg = cfg` stores the parameter into itself (D23).
-//   * transport.NewTransport: which option of the package-level configuration feeds which field of the
+//   - transport.NewTransport: which option of the package-level configuration feeds which field of the
 //     http.Transport / net.Dialer literal.
-//   * who calls transport.NewTransport in the whole repository, and the order of main: SetConfig is an
+//   - who calls transport.NewTransport in the whole repository, and the order of main: SetConfig is an
 //     unconditional top-level statement of main, and nothing before it can reach a NewTransport call.
-//   * proxy.httpProxyErrorHandler: the decision table from error class to status, and that it is the
+//   - proxy.httpProxyErrorHandler: the decision table from error class to status, and that it is the
 //     ErrorHandler of the ReverseProxy.
 func init() {
 	register("C19", func(x *X) error {
@@ -27,6 +27,7 @@ func init() {
 		c19NewTransport(x)
 		c19Order(x)
 		c19ErrorHandler(x)
+		c19ServeHTTP(x)
 		return nil
 	})
 }
@@ -776,3 +777,125 @@ func c19ErrorHandler(x *X) {
 	x.defStr("reverseProxyTransport", trField)
 }
 
+// c19ServeHTTP: the data flow of the transport and of the request inside HTTPProxy.ServeHTTP.
+//   - every construction or copy of an http.Transport (composite literal, .Clone()) in the packages on the
+//     request path (proxy, proxy/gzip, route, main): none besides transport.NewTransport's own literal;
+//   - the selected-transport variable is only ever assigned p.Transport / t.Transport / p.InsecureTransport and
+//     is what both reverse-proxy handlers receive;
+//   - the handler variable is only assigned the websocket handler, the reverse proxy and the gzip wrapper;
+//   - the request handed to the handler is the request received: no context.With*, no WithContext, no rebinding.
+func c19ServeHTTP(x *X) {
+	var constructions []string
+	for _, dir := range []string{"proxy", "proxy/gzip", "route", "."} {
+		label := dir
+		if dir == "." {
+			label = "main"
+		}
+		for _, f := range x.files(dir) {
+			for _, d := range f.Decls {
+				where := "<package level>"
+				if fd, ok := d.(*ast.FuncDecl); ok {
+					where = c19FuncName(fd)
+				}
+				ast.Inspect(d, func(n ast.Node) bool {
+					switch v := n.(type) {
+					case *ast.CompositeLit:
+						if v.Type != nil && x.src(v.Type) == "http.Transport" {
+							constructions = append(constructions, label+"."+where+": http.Transport literal")
+						}
+					case *ast.CallExpr:
+						if sel, ok := v.Fun.(*ast.SelectorExpr); ok && sel.Sel.Name == "Clone" && len(v.Args) == 0 {
+							constructions = append(constructions, label+"."+where+": "+x.src(v))
+						}
+					}
+					return true
+				})
+			}
+		}
+	}
+	sort.Strings(constructions)
+	x.defStrList("transportConstructionsOnRequestPath", constructions)
+
+	sh := x.funcDecl("proxy", "HTTPProxy", "ServeHTTP")
+	if sh == nil || sh.Body == nil || sh.Type.Params == nil || len(sh.Type.Params.List) != 2 || len(sh.Type.Params.List[1].Names) != 1 {
+		x.fail("proxy.HTTPProxy.ServeHTTP: unexpected shape")
+		return
+	}
+	reqName := sh.Type.Params.List[1].Names[0].Name
+	var trSources, handlerArgs, handlerAssigns, ctxDerivs, rebinds, serveArgs []string
+	seenSrc := map[string]bool{}
+	ctxFuncs := map[string]bool{"context.WithTimeout": true, "context.WithDeadline": true, "context.WithCancel": true,
+		"context.WithTimeoutCause": true, "context.WithDeadlineCause": true, "context.WithCancelCause": true,
+		"context.WithoutCancel": true, "context.WithValue": true, "context.Background": true, "context.TODO": true}
+	scan := func(fn string, body ast.Node, full bool) {
+		ast.Inspect(body, func(n ast.Node) bool {
+			switch v := n.(type) {
+			case *ast.AssignStmt:
+				if !full {
+					return true
+				}
+				for i, l := range v.Lhs {
+					id, ok := l.(*ast.Ident)
+					if !ok || i >= len(v.Rhs) && len(v.Rhs) != 1 {
+						continue
+					}
+					rhs := v.Rhs[0]
+					if i < len(v.Rhs) {
+						rhs = v.Rhs[i]
+					}
+					switch id.Name {
+					case "tr":
+						if s := x.src(rhs); !seenSrc[s] {
+							seenSrc[s] = true
+							trSources = append(trSources, s)
+						}
+					case "h":
+						if c, ok := rhs.(*ast.CallExpr); ok {
+							handlerAssigns = append(handlerAssigns, x.src(c.Fun))
+						} else {
+							handlerAssigns = append(handlerAssigns, "expr:"+x.src(rhs))
+						}
+					case reqName:
+						rebinds = append(rebinds, x.src(v))
+					}
+				}
+			case *ast.CallExpr:
+				fs := x.src(v.Fun)
+				if ctxFuncs[fs] {
+					ctxDerivs = append(ctxDerivs, fn+": "+fs)
+				}
+				if sel, ok := v.Fun.(*ast.SelectorExpr); ok {
+					switch sel.Sel.Name {
+					case "WithContext", "SetReadDeadline", "SetWriteDeadline", "SetDeadline":
+						ctxDerivs = append(ctxDerivs, fn+": "+fs)
+					}
+				}
+				if fs == "http.TimeoutHandler" || fs == "time.AfterFunc" {
+					ctxDerivs = append(ctxDerivs, fn+": "+fs)
+				}
+				if full && fs == "newHTTPProxy" && len(v.Args) == 3 {
+					handlerArgs = append(handlerArgs, x.src(v.Args[1]))
+				}
+				if full && fs == "h.ServeHTTP" && len(v.Args) == 2 {
+					serveArgs = append(serveArgs, x.src(v.Args[1]))
+				}
+			}
+			return true
+		})
+	}
+	scan("ServeHTTP", sh.Body, true)
+	if np := x.funcDecl("proxy", "", "newHTTPProxy"); np != nil {
+		scan("newHTTPProxy", np.Body, false)
+	}
+	if eh := x.funcDecl("proxy", "", "httpProxyErrorHandler"); eh != nil {
+		scan("httpProxyErrorHandler", eh.Body, false)
+	}
+	sort.Strings(trSources)
+	x.defStrList("serveHTTPTransportSources", trSources)
+	x.defStrList("serveHTTPHandlerTransportArgs", handlerArgs)
+	x.defStrList("serveHTTPHandlerAssignments", handlerAssigns)
+	x.defStrList("serveHTTPContextDerivations", ctxDerivs)
+	x.defStrList("serveHTTPRequestRebinds", rebinds)
+	x.defStrList("serveHTTPServeArgs", serveArgs)
+	x.defStr("serveHTTPRequestParam", reqName)
+}
